@@ -42,6 +42,17 @@ TWO_PARAM_FLUENTS = [  # function terms over two parameters (their name-keyed si
 ]
 
 
+TWINS = [  # two literals / terms of one predicate and polarity that a permutation of the parameters maps onto one another
+    ("(and (p ?x) (p ?y))", "(and (r))"), ("(and (not (p ?x)) (not (p ?y)))", "(and (r))"),
+    ("(and (q ?x ?y) (q ?y ?x))", "(and (not (r)))"), ("(and (or (p ?x) (p ?y)))", "(and (r))"),
+    ("(and (r) (or (not (p ?x)) (not (p ?y))))", "(and (not (r)))"),
+    ("(and)", "(and (when (and (p ?x) (p ?y)) (r)))"), ("(and)", "(and (p ?x) (p ?y))"),
+    ("(and)", "(and (not (q ?x ?y)) (not (q ?y ?x)))"),
+    ("(and (>= (g ?x) 1) (>= (g ?y) 1))", "(and (increase (g ?x) 1) (increase (g ?y) 1))"),
+    ("(and (forall (?z - t1) (or (q ?x ?z) (q ?y ?z))))", "(and (forall (?z - t1) (when (q ?z ?x) (q ?z ?y))))"),
+]
+
+
 def renamings(params):
     fresh = ["?u", "?v", "?k"]
     out = [("identity", {p: p for p in params}), ("fresh", {p: f for p, f in zip(params, fresh)})]
@@ -57,6 +68,10 @@ def renamings(params):
         out.append(("partial", {**{p: p for p in params}, params[-1]: "?u"}))
     if len(params) >= 3:
         out.append(("chain3", {params[0]: params[1], params[1]: params[2], params[2]: "?u"}))
+    # the same maps with their entries listed in the opposite order (a map is a map, however it was built)
+    for kind, ren in list(out):
+        if len(ren) >= 2 and kind in ("fresh", "perm", "chain"):
+            out.append((kind + "-listed-backwards", dict(reversed(list(ren.items())))))
     return out
 
 
@@ -78,6 +93,8 @@ def cases(tier):
         for prof in ("xy", "x2y"):
             q = vdom.program(prof, pre, eff, ["fluent2"])
             progs.append(q)
+    for pre, eff in TWINS:
+        progs.append(vdom.program("xy", pre, eff, ["twins"]))
     for pre, eff in THREE:
         text = (f"(define (domain v)\n{vdom.header('typed')}\n(:action a\n :parameters ({P3})\n"
                 f" :precondition {pre}\n :effect {eff}))\n")
